@@ -8,6 +8,7 @@ from __future__ import unicode_literals
 
 from django_evolution.compat import six
 from django_evolution.compat.models import get_model_name
+from django_evolution.errors import EvolutionException
 from django_evolution.models import Evolution
 from django_evolution.support import supports_migrations
 from django_evolution.utils.apps import get_app_label
@@ -313,12 +314,33 @@ class DependencyGraph(object):
                         #
                         # We'll mark that we've processed this, so we don't
                         # re-scan the dependencies again.
+                        processed.add(node)
+
+                        for dep in node.dependencies:
+                            if dep in processed and dep not in visited:
+                                # This dependency is still being worked on,
+                                # meaning that it (indirectly) depends on
+                                # this node.
+                                raise EvolutionException(
+                                    'A circular dependency was found '
+                                    'between "%s" and "%s".'
+                                    % (node.key, dep.key))
+
                         stack.append(node)
                         stack += sorted(node.dependencies,
                                         key=lambda dep: dep.insert_index,
                                         reverse=True)
 
-                        processed.add(node)
+        if len(result) != len(self._nodes):
+            # Some nodes could not be reached from any leaf node. That can
+            # only happen if they're part of a dependency cycle.
+            raise EvolutionException(
+                'A circular dependency was found between: %s'
+                % ', '.join(sorted(
+                    '"%s"' % node.key
+                    for node in six.itervalues(self._nodes)
+                    if node not in result_set
+                )))
 
         return result
 
